@@ -171,8 +171,63 @@ func (a *vfActor) onAskMsg(ctx vivid.ActorContext, m *vfAskMsg, fw *vfFutWorld) 
 // read by the runner; keyed by asker index, valid for the case being run)
 var vfFutRespawn map[int]bool
 
+// vfGenKillRace: the asker dies while many of its Asks are outstanding and others are completing at that very moment.
+// Old asks (issued at 0: never answered, or answered long after the kill; no / long / default timeout) are certainly
+// outstanding at the kill instant kt; at kt a volley of new asks that are answered at once is issued together with the
+// Kill, so replies, self-removal of completed futures and the kill's sweep over the asker's futures race for real.
+// Every future asked before the kill must complete with the actor-dead error at kt (or with its reply / timeout if that
+// is due at the same instant).
+func vfGenKillRace(rng *verifrt.Rand) (nAskers, nResp int, asks []vfAskSpec, kills map[int]time.Duration) {
+	nAskers = 1 + rng.Intn(2)
+	nResp = 1 + rng.Intn(3)
+	kt := []time.Duration{time.Millisecond, 10 * time.Millisecond, 100 * time.Millisecond}[rng.Intn(3)]
+	kills = map[int]time.Duration{0: kt}
+	if rng.Chance(40) {
+		vfFutRespawn[0] = true
+	}
+	nOld := 2 + rng.Intn(20)
+	nNew := 2 + rng.Intn(20)
+	id := 0
+	for i := 0; i < nOld; i++ {
+		id++
+		a := vfAskSpec{AskID: id, At: 0, Asker: 0, Responder: rng.Intn(nResp), Script: "never", CloseAt: -1, PipeAt: -1, Waiters: 1 + rng.Intn(2), UseWait: rng.Bool()}
+		if rng.Chance(30) {
+			a.Script, a.Delay = "after", 10*kt
+		}
+		switch rng.Intn(4) {
+		case 0:
+			a.TimeoutSet, a.Timeout = true, 0
+		case 1: // default (1 s)
+		case 2:
+			a.TimeoutSet, a.Timeout = true, kt // the timeout is due at the kill instant: either outcome
+		case 3:
+			a.TimeoutSet, a.Timeout = true, 5*kt
+		}
+		if nAskers > 1 && rng.Chance(20) {
+			a.Asker = 1 // bystander: must not be affected by the other asker's death
+		}
+		asks = append(asks, a)
+	}
+	for i := 0; i < nNew; i++ {
+		id++
+		a := vfAskSpec{AskID: id, At: kt, Asker: 0, Responder: rng.Intn(nResp), Script: "now", CloseAt: -1, PipeAt: -1, Waiters: 1, UseWait: rng.Bool()}
+		if rng.Chance(25) {
+			a.Script = "never"
+		}
+		if rng.Chance(50) {
+			a.TimeoutSet, a.Timeout = true, []time.Duration{0, 10 * kt}[rng.Intn(2)]
+		}
+		asks = append(asks, a)
+	}
+	sort.SliceStable(asks, func(i, j int) bool { return asks[i].At < asks[j].At })
+	return
+}
+
 func vfGenFutures(rng *verifrt.Rand) (nAskers, nResp int, asks []vfAskSpec, kills map[int]time.Duration) {
 	vfFutRespawn = map[int]bool{}
+	if rng.Chance(15) {
+		return vfGenKillRace(rng)
+	}
 	nAskers = 1 + rng.Intn(5)
 	nResp = 1 + rng.Intn(3)
 	n := 1 + rng.Intn(50)
@@ -438,6 +493,14 @@ func vfRunFutures(nAskers, nResp int, asks []vfAskSpec, kills map[int]time.Durat
 		if vfFutTol > 0 {
 			// inject tier: delays inside vivid calls shift the instants observed at the API boundary and reorder
 			// same-instant actions; exact-instant clauses are decided by the un-injected tier only
+			// ... except gross lateness: the injected delays are 1 ns each, so a completion more than 1 us after the
+			// earliest due candidate is late whatever the interleaving was
+			if len(cands) > 0 {
+				sort.Slice(cands, func(i, j int) bool { return cands[i].at < cands[j].at })
+				if d := first.at - cands[0].at; d > time.Microsecond {
+					add("c04-completed-late", first.errK, "ask %s (asked at %v) completed at %v with (%s,%s); earliest due completion is at %v (candidates %v)", sp, r.askedAt, first.at, val, first.errK, cands[0].at, cands)
+				}
+			}
 			outcomes[first.errK]++
 			goto forwarders
 		}
@@ -629,7 +692,14 @@ func TestVerif_futuresinject(t *testing.T) {
 		}
 	}
 	sites := verifrt.SortedKeys(siteSet)
+	var sweepSites []string
+	for _, st := range sites {
+		if strings.Contains(st, "removeFuture") || strings.Contains(st, ".doKill#") {
+			sweepSites = append(sweepSites, st)
+		}
+	}
 	R.ObsMax("max:candidate_sites", int64(len(sites)))
+	R.ObsMax("max:sweep_sites", int64(len(sweepSites)))
 	if len(sites) == 0 {
 		R.Inconcl("no instrumented site reached (vinstr overlay missing?)")
 		return
@@ -647,6 +717,10 @@ func TestVerif_futuresinject(t *testing.T) {
 		plan := map[string]int64{}
 		for k := 1 + rng.Intn(2); k > 0; k-- {
 			plan[sites[rng.Intn(len(sites))]] = int64(1 + rng.Intn(3))
+		}
+		if len(kills) > 0 && len(sweepSites) > 0 && rng.Chance(60) {
+			// a maximal delay inside the kill's sweep over the asker's futures / a future's self-removal
+			plan = map[string]int64{sweepSites[rng.Intn(len(sweepSites))]: int64(1 + rng.Intn(4))}
 		}
 		var ps []string
 		for _, a := range asks {
